@@ -156,7 +156,7 @@ def elemOf : Nat → Lib → Ty → Except Err (Option (String × List (List Mod
 structure Member where
   comp : Comp
   ext : List (List Mod)
-  deriving Repr, Inhabited
+  deriving Repr, DecidableEq, Inhabited
 
 def Mod.headIn (names : List Name) (m : Mod) : Bool :=
   match m.path with
